@@ -33,4 +33,12 @@ theorem C01_text_complete (g : RGrammar) (hG : GoodDecayGrammar g)
     (readDoc g (String.ofList (renderD ℓ d))).map List.length = .ok d.length := by
   rw [C02_read_layout_decay g hG ℓ hℓ d hd]; rfl
 
+/-- every query at once: whatever is computed from the statements (`dict_*`, `list_*`, the lineshape
+    and Pythia / JetSet tables, the PHOTOS flag, …) is, computed from the text, what it is for the
+    document written — so the statement-level theorems of C05 and C07 hold of the text as well -/
+theorem C02_text_any {α : Type} (f : Doc → α) (g : RGrammar) (hG : GoodDecayGrammar g)
+    (ℓ : DocLayoutD) (hℓ : GoodLayoutD ℓ) (d : Doc) (hd : ∀ s ∈ d, StmtOK g s) :
+    (readDoc g (String.ofList (renderD ℓ d))).map f = .ok (f d) := by
+  rw [C02_read_layout_decay g hG ℓ hℓ d hd]; rfl
+
 end DL
